@@ -34,12 +34,12 @@ Proof.
   exists (rev p). rewrite <- rev_app_distr, <- Hp, rev_involutive. reflexivity.
 Qed.
 
-Lemma tag_sp_prefix t s r : tag_sp t s = Some r -> exists r0, starts_with t s = Some r0.
-Proof. unfold tag_sp. destruct (starts_with t s) as [r0|]; [intros _; exists r0; reflexivity|discriminate]. Qed.
+Lemma tag_sp_prefix t s r : tag_spn t s = Some r -> exists r0, starts_with t s = Some r0.
+Proof. unfold tag_spn. destruct (starts_with t s) as [r0|]; [intros _; exists r0; reflexivity|discriminate]. Qed.
 
 Lemma idx_line_prefix t s x : idx_line t s = Some x -> exists r0, starts_with t s = Some r0.
 Proof.
-  unfold idx_line. destruct (tag_sp t s) as [r|] eqn:E; [|discriminate]. intros _. exact (tag_sp_prefix _ _ _ E).
+  unfold idx_line. destruct (tag_spn t s) as [r|] eqn:E; [|discriminate]. intros _. exact (tag_sp_prefix _ _ _ E).
 Qed.
 
 (* a FILE record is neither an INLINE / INLINE_ORIGIN record nor a line record *)
